@@ -260,6 +260,12 @@ class KeyType(StringType, prim='key'):
         return self.value
 
 
+def unforge_key_hash(data: bytes) -> str:
+    if len(data) != 21:
+        raise ValueError(f'key_hash takes 21 bytes, got {len(data)}')
+    return unforge_address(data)
+
+
 class KeyHashType(StringType, prim='key_hash'):
     @classmethod
     def dummy(cls, context: AbstractContext) -> 'KeyHashType':
@@ -273,7 +279,7 @@ class KeyHashType(StringType, prim='key_hash'):
     @classmethod
     def from_micheline_value(cls, val_expr) -> 'KeyHashType':
         value = parse_micheline_literal(
-            val_expr, {'bytes': lambda x: unforge_address(bytes.fromhex(x)), 'string': lambda x: x}
+            val_expr, {'bytes': lambda x: unforge_key_hash(bytes.fromhex(x)), 'string': lambda x: x}
         )
         return cls.from_value(value)
 
